@@ -357,6 +357,87 @@ def resolve_discipline(ctx):
             ctx.ob(['C10', 'C14'], 'R-ERR', 'discarded|%s|%s' % (re.sub(r'\{closure#\d+\}', '{closure}', f.id), short(c['path'])), ok,
                    'result of fallible %s is used' % short(c['path']) if ok else 'the Option/Result returned by %s is discarded' % c['path'], loc(c['span']), nontrivial=not ok)
     ctx.ob(['C10'], 'R-ERR', 'discarded|census', nd >= 20, 'calls of in-crate Option/Result functions examined: %d (floor 20)' % nd, nontrivial=False)
+    swallowed_errors(ctx)
+
+
+SWALLOW_ALLOWED = {
+    # (function, sink): why no rejection is lost there
+    ('semantic::semantic_state::SemanticState::add_file', 'Result::unwrap_or'):
+        'strip_prefix(base).unwrap_or(path): a path outside the base directory keeps its full path; no description error is involved',
+    ('build', 'filter_map(Result::ok)'):
+        'glob entries that cannot be read are skipped by lib.rs::build (directory-walk errors, not description errors)',
+}
+SWALLOW_SINK = re.compile(r'Result::<T, E>::(ok|err|unwrap_or|unwrap_or_else|unwrap_or_default|map_or|map_or_else|is_ok|is_ok_and|iter|iter_mut|into_iter|or|or_else|and)$')
+SWALLOW_ADAPTER = re.compile(r'Iterator::(flat_map|filter_map|find_map|map_while|flatten)$')
+
+
+def _swallow_props(fid):
+    if 'semantic_state' in fid or 'module' in fid:
+        return ['C15', 'C14', 'C10']
+    if 'enum_definition' in fid:
+        return ['C08', 'C10']
+    if 'vftable' in fid:
+        return ['C04', 'C06', 'C10']
+    if 'semantic::function' in fid:
+        return ['C05', 'C16', 'C10']
+    if 'type_definition' in fid or 'type_registry' in fid:
+        return ['C03', 'C10', 'C05']
+    if fid.startswith('backends'):
+        return ['C13', 'C14']
+    if fid.startswith('parser'):
+        return ['C18']
+    return ['C14', 'C10']
+
+
+def swallowed_errors(ctx):
+    """an Err that is turned into a value or silently skipped is a description that should have been rejected and is accepted:
+    every place where a Result loses its Err (ok(), unwrap_or*, is_ok, iterating a Result, flat_map / filter_map / flatten over a
+    Result-valued closure, filter_map(Result::ok)) is either in the reviewed table or a violation"""
+    P = ctx.prog
+    n = 0
+    seen = {}
+    for f in P.fns.values():
+        if f.raw.get('derived') or f.raw.get('is_test'):
+            continue
+        base = re.sub(r'(::\{closure#\d+\})+$', '', f.id)
+        for bi in f.normal_blocks():
+            t = f.term(bi)
+            if t['k'] != 'Call' or not t.get('callee'):
+                continue
+            p_ = t['callee'].get('rpath') or t['callee']['path']
+            sinks = []
+            if SWALLOW_SINK.search(t['callee']['path']) or SWALLOW_SINK.search(p_):
+                sinks.append('Result::' + t['callee']['path'].split('::')[-1])
+            if re.search(r'IntoIterator::into_iter$', t['callee']['path']) and str(t['callee'].get('self_ty') or '').startswith('std::result::Result<'):
+                sinks.append('for-over-Result')
+            if SWALLOW_ADAPTER.search(t['callee']['path']):
+                ad = t['callee']['path'].split('::')[-1]
+                for a in t['args'][1:]:
+                    a_ = strip(f.expr_of_operand(a))
+                    if a_[0] in ('closure', 'fnref') and a_[1] in P.fns:
+                        rt = P.fns[a_[1]].local_ty(0) if P.fns[a_[1]].kind == 'Closure' else P.fns[a_[1]].raw.get('output', '')
+                        if str(rt).startswith('std::result::Result<') and ad in ('flat_map', 'map_while', 'find_map', 'filter_map'):
+                            sinks.append('%s(Result-valued %s)' % (ad, 'closure' if a_[0] == 'closure' else short(a_[1])))
+                    elif a_[0] == 'fnref' and re.search(r'Result::<T, E>::(ok|err)$', a_[1]):
+                        sinks.append('%s(Result::%s)' % (ad, a_[1].split('::')[-1]))
+                if ad == 'flatten' and re.search(r'Item = std::result::Result<|std::result::Result<', str(t['callee'].get('self_ty') or '')) and \
+                        re.search(r'(Map|IntoIter|Iter)<.*std::result::Result<', str(t['callee'].get('self_ty') or '')):
+                    sinks.append('flatten(over Results)')
+            for sk in sinks:
+                n += 1
+                why = SWALLOW_ALLOWED.get((base, sk))
+                k = 'swallowed|%s|%s' % (re.sub(r'\{closure#\d+\}', '{closure}', f.id), sk)
+                seen[k] = seen.get(k, 0) + 1
+                if seen[k] > 1:
+                    k += '#%d' % seen[k]
+                ctx.ob(_swallow_props(f.id), 'R-ERR', k, why is not None,
+                       ('an Err is dropped by %s: %s' % (sk, why)) if why else
+                       'an Err is dropped by %s in %s: whatever the failing step would have rejected is accepted (or silently left out)' % (sk, f.id), loc(t['span']),
+                       nontrivial=why is None)
+    # the expected count is small (possibly zero after a refactoring): the matchers are tested on the spellings they must recognise
+    selftest = bool(SWALLOW_SINK.search('std::result::Result::<T, E>::ok')) and bool(SWALLOW_SINK.search('std::result::Result::<T, E>::unwrap_or')) and \
+        bool(SWALLOW_ADAPTER.search('std::iter::Iterator::flat_map')) and not SWALLOW_SINK.search('std::option::Option::<T>::ok_or')
+    ctx.ob(['C10'], 'R-ERR', 'swallowed|census', selftest, 'places where a Result loses its Err: %d, all in the reviewed table (matchers self-tested on ok / unwrap_or / flat_map)' % n, nontrivial=False)
 
 
 # ------------------------------------------------------------------------------------------------
